@@ -16,15 +16,17 @@
 #include "common.h"
 
 #define NSLOT 4
-#define MAXDL 64
+#define MAXDL 65536        /* element sizes up to 64 KiB (scale stream) */
+#define SMALLDL 64         /* up to here an element is printed as its full decimal value */
 #define POISON 0xCD
 static CC_ArraySized *ar[NSLOT];
 static CC_ArraySizedIter it;       static int it_on, it_slot;
 static CC_ArraySizedZipIter zit;   static int zit_on, zit_s1, zit_s2;
+static int quiet;                  /* phys=quiet session: buffer printed as a checksum except on `observe` */
 static int sparse;                 /* obs=sparse session: content is printed by `observe` only */
 static size_t cur_dl;              /* element size seen by the callbacks of the running op */
 
-static void shim_reset(void) { for (int i = 0; i < NSLOT; i++) ar[i] = NULL; it_on = zit_on = 0; sparse = 0; }
+static void shim_reset(void) { for (int i = 0; i < NSLOT; i++) ar[i] = NULL; it_on = zit_on = 0; sparse = 0; quiet = 0; }
 
 static void *sz_malloc(size_t n) { void *p = conf_malloc(n); if (p) memset(p, POISON, n); return p; }
 
@@ -36,10 +38,20 @@ static void enc(const char *dec, uint8_t *out, size_t dl) {
         for (size_t j = 0; j < dl; j++) { unsigned t = out[j] * 10u + carry; out[j] = (uint8_t)(t & 0xFF); carry = t >> 8; }
     }
 }
+static uint64_t fnv64(const uint8_t *p, size_t n) {
+    uint64_t h = 0xcbf29ce484222325ULL;
+    for (size_t i = 0; i < n; i++) { h ^= p[i]; h *= 0x100000001b3ULL; }
+    return h;
+}
 static char *dec(const uint8_t *p, size_t dl) {   /* returns a static string (rotating) */
     static char bufs[8][200]; static int rot;
     char *b = bufs[rot = (rot + 1) & 7];
-    uint8_t t[MAXDL]; if (dl > MAXDL) dl = MAXDL; memcpy(t, p, dl);
+    if (dl > SMALLDL) {   /* big records: low 8 bytes as a number, then FNV-1a 64 of all bytes */
+        uint64_t lo = 0; for (int j = 7; j >= 0; j--) lo = lo * 256 + p[j];
+        sprintf(b, "%" PRIu64 ":%016" PRIx64, lo, fnv64(p, dl));
+        return b;
+    }
+    uint8_t t[SMALLDL]; memcpy(t, p, dl);
     char rev[200]; size_t n = 0;
     for (;;) {
         unsigned rem = 0; int nz = 0;
@@ -143,6 +155,7 @@ static void obs_all(void) {
         __real_free(out);
     }
 }
+static int phys_full;              /* the current op is `observe` */
 static void phys(void) {
     int any = 0;
     for (int k = 0; k < NSLOT; k++) {
@@ -152,8 +165,14 @@ static void phys(void) {
         o("dl%d=%zu size%d=%zu cap%d=%zu buf%d=", k, a->data_length, k, a->size, k, a->capacity, k);
         /* an array on the C library allocator has uninitialised dead slots: print the live bytes only */
         size_t nb = (a->mem_alloc != sz_malloc ? a->size : a->capacity) * a->data_length;
-        for (size_t i = 0; i < nb; i++) o("%02x", a->buffer[i]);
-        if (nb == 0) o("-");
+        /* full hex dump up to 256 KiB (normal sessions, and `observe` in quiet ones); otherwise FNV-1a 64
+         * of the same bytes, up to 16 MiB on `observe` and 1 MiB per ordinary op; beyond: not looked at */
+        int full = !quiet || phys_full;
+        if (full && nb <= ((size_t)1 << 18)) {
+            for (size_t i = 0; i < nb; i++) o("%02x", a->buffer[i]);
+            if (nb == 0) o("-");
+        } else if (nb <= (phys_full ? (size_t)1 << 24 : (size_t)1 << 20)) o("sum%016" PRIx64, fnv64(a->buffer, nb));
+        else o("sum-");
         if (a->size > a->capacity) o(" WALK=size-gt-capacity");
         if (block_size(a->buffer) < a->capacity * a->data_length) o(" WALK=buf-block-too-small");
         if (a->capacity == 0) o(" WALK=capacity-zero");
@@ -174,8 +193,9 @@ static void conf_fill(CC_ArraySizedConf *conf, Cmd *c) {
 
 static void do_op(Cmd *c) {
     int s = (int)kv_u64(c, "o", 0); if (s < 0 || s >= NSLOT) s = 0;
-    cbs_reset(); tie_slot = -1;
+    cbs_reset(); tie_slot = -1; phys_full = is_op(c, "observe");
     if ((is_op(c, "new") || is_op(c, "new_default")) && !strcmp(kv_str(c, "obs", ""), "sparse")) sparse = 1;
+    if ((is_op(c, "new") || is_op(c, "new_default")) && !strcmp(kv_str(c, "phys", ""), "quiet")) quiet = 1;
     if (is_op(c, "new")) {
         CC_ArraySizedConf conf; conf_fill(&conf, c);
         size_t es = kv_u64(c, "esize", 1);
